@@ -191,6 +191,45 @@ let judge _id (c : cursor) (r : cursor) : bool * string =
     if not (vec_close tol9 (project_fix v) out || vec_close tol9 (project_cur v) out) then
       disagree "project" site ("impl " ^ str_qs out ^ " model " ^ str_qs (project_fix v));
     (List.length v > 1, "proj." ^ tag)
+  (* ------------------------------------------------------------------ sampleSR / sampleSOR *)
+  | "sr" ->
+    let variant = next c in
+    let ns = next_int c in let na = next_int c in let no = next_int c in
+    let rec take k f = if k = 0 then [] else let x = f () in x :: take (k - 1) f in
+    let vecn n = take n (fun () -> next_q c) in
+    let p = take na (fun () -> take ns (fun () -> vecn ns)) in
+    let rw = take ns (fun () -> vecn na) in
+    let ob = take na (fun () -> take ns (fun () -> vecn no)) in
+    let s = next_nat c in let a = next_nat c in let m = next_int c in
+    let md = { nS = nat_of_int ns; nA = nat_of_int na; p = p; r = rw; gam = q_of_ints 1 2 } in
+    if not (wf_mdpb md) then failwith "sr: ill-formed model";
+    let pmd = { pm = md; nO = nat_of_int no; ob = ob } in
+    let site = (match variant with "dense" -> "MDP::Model::sampleSR" | "sparse" -> "MDP::SparseModel::sampleSR" | _ -> "POMDP::Model::sampleSOR") in
+    if (not (at_end r)) && is_crash (peek r) then oracle_fail "no_UB" site "abnormal termination";
+    if next_int r <> m then failwith "sr: sample count";
+    let unit_ok u = q_le q_zero u && q_lt u q_one in
+    for _ = 1 to m do
+      let u1 = next_q r in let k1 = next_idx r in let rew = next_q r in
+      if not (unit_ok u1) then oracle_fail "uniform_in_unit_interval" "uniform_real_distribution" (string_of_q u1);
+      (* O: the next state lies in the interval of the model's own row, the reward is R(s,a) *)
+      if k1 < 0 || k1 >= ns then oracle_fail "sample_sr_follows_model" site "next state out of range";
+      if not (dense_selb (trow md s a) u1 (nat_of_int k1)) then
+        oracle_fail "sample_sr_follows_model" site ("u=" ^ string_of_q u1 ^ " gave next state " ^ string_of_int k1 ^ " outside its interval of the transition row");
+      if not (q_eq rew (List.nth (List.nth rw (ni s)) (ni a))) then oracle_fail "sample_sr_follows_model" site "reward is not R(s,a)";
+      if variant = "pomdp" then begin
+        let u2 = next_q r in let k2 = next_idx r in
+        if not (unit_ok u2) then oracle_fail "uniform_in_unit_interval" "uniform_real_distribution" (string_of_q u2);
+        if k2 < 0 || k2 >= no then oracle_fail "sample_sor_follows_model" site "observation out of range";
+        if not (dense_selb (orow pmd (nat_of_int k1) a) u2 (nat_of_int k2)) then
+          oracle_fail "sample_sor_follows_model" site ("u=" ^ string_of_q u2 ^ " gave observation " ^ string_of_int k2 ^ " outside its interval of the observation row");
+        let ((ms1, mo), mr) = sample_sor pmd s a u1 u2 in
+        if ni ms1 <> k1 || ni mo <> k2 || not (q_eq mr rew) then disagree "sample_sor" site "model/impl differ"
+      end else begin
+        let (ms1, mr) = sample_sr md s a u1 in
+        if ni ms1 <> k1 || not (q_eq mr rew) then disagree "sample_sr" site ("u=" ^ string_of_q u1 ^ " impl " ^ string_of_int k1 ^ " model " ^ string_of_int (ni ms1))
+      end
+    done;
+    (ns > 1, "sr." ^ variant)
   | k -> failwith ("unknown case kind " ^ k)
 
 let () = main_loop judge
